@@ -83,6 +83,22 @@ func (m *Model) ruleLOCKPAIR(r *Results) {
 			r.check(len(foreign) == 0, rule, key, pos, "manual Lock/Unlock pair around a region without calls that could panic or block", fmt.Sprintf("manually paired lock region calls %v: a panic or early exit there leaves %s held", uniq(foreign), op.Lock))
 		}
 	}
+	// no conditional acquisition: what a critical section does (arming the timer, registering a
+	// feed, updating the registry) must happen; skipping it because the lock is busy loses it
+	for _, fn := range m.Funcs {
+		if !m.inPkg(fn) {
+			continue
+		}
+		m.eachCall(fn, func(c ssa.CallInstruction) {
+			callee := c.Common().StaticCallee()
+			if callee == nil || callee.Pkg == nil || callee.Pkg.Pkg.Path() != "sync" {
+				return
+			}
+			if nm := callee.Name(); nm == "TryLock" || nm == "TryRLock" {
+				r.bad(rule, m.declName(fn)+" / conditional acquisition", m.instrPos(c), "%s: the critical section is skipped whenever the lock happens to be held by someone else, so its effect (e.g. arming the expiry timer for a write that just committed) is silently lost", nm)
+			}
+		})
+	}
 	if n < 20 {
 		r.undecided(rule, "instance-floor", "-", "found %d lock acquisitions; at least 20 were confirmed by hand", n)
 	}
